@@ -68,7 +68,8 @@ type lockOp struct {
 	Mode    byte
 	Class   string
 	Root    string
-	Known   bool // receiver resolved to a field/global mutex
+	Known   bool      // receiver resolved to a field/global mutex
+	RootV   ssa.Value // the object owning the mutex (nil for globals)
 }
 
 func asLockOp(c ssa.CallInstruction) (lockOp, bool) {
@@ -95,6 +96,7 @@ func asLockOp(c ssa.CallInstruction) (lockOp, bool) {
 		if fr, ok := fieldRefOf(r); ok {
 			op.Class = fr.Key()
 			op.Root = AccessPath(r.X)
+			op.RootV = r.X
 			op.Known = true
 		}
 	case *ssa.Global:
@@ -158,6 +160,20 @@ func analyseLocks(fn *ssa.Function, entry LockSet) *FnLocks {
 		if _, ok := ls[key]; ok {
 			delete(ls, key)
 			return
+		}
+		// the owner is a φ (`b = next(); b.mu.Lock()` in a loop, released through the merged
+		// variable): it denotes one of its operands, whose lock this releases
+		if roots := phiOperandPaths(op.RootV); len(roots) > 0 {
+			hit := false
+			for k, h := range ls {
+				if h.Class == op.Class && roots[h.Root] {
+					delete(ls, k)
+					hit = true
+				}
+			}
+			if hit {
+				return
+			}
 		}
 		// fall back: release any lock of the class with this mode (instance path differed)
 		for k, h := range ls {
@@ -239,6 +255,29 @@ func analyseLocks(fn *ssa.Function, entry LockSet) *FnLocks {
 							h.Mode = 'R'
 						}
 						n.must[k] = h
+						continue
+					}
+					// the same class held on both edges through different instance paths (the locked
+					// object is a φ: `for b.evicted { b.mu.Unlock(); b = next(); b.mu.Lock() }`): some
+					// instance of the class is held either way
+					var other *Held
+					cnt := 0
+					for _, h2 := range st.must {
+						if h2.Class == h.Class {
+							h2 := h2
+							other = &h2
+							cnt++
+						}
+					}
+					if cnt == 1 {
+						if _, dup := st.must[k]; !dup {
+							m := h
+							if other.Mode != h.Mode {
+								m.Mode = 'R'
+							}
+							m.Root = "?"
+							n.must[h.Class+"|?"] = m
+						}
 					}
 				}
 				for k, h := range st.may {
@@ -376,4 +415,30 @@ func recvExported(fn *ssa.Function) bool {
 	}
 	n := namedOf(r.Type())
 	return n != nil && n.Obj().Exported()
+}
+
+// phiOperandPaths: the access paths of the values a φ (possibly nested) merges; nil when v is not a φ.
+func phiOperandPaths(v ssa.Value) map[string]bool {
+	ph, ok := v.(*ssa.Phi)
+	if !ok {
+		return nil
+	}
+	out := map[string]bool{}
+	seen := map[*ssa.Phi]bool{}
+	var walk func(p *ssa.Phi)
+	walk = func(p *ssa.Phi) {
+		if seen[p] {
+			return
+		}
+		seen[p] = true
+		for _, e := range p.Edges {
+			if inner, ok := e.(*ssa.Phi); ok {
+				walk(inner)
+				continue
+			}
+			out[AccessPath(e)] = true
+		}
+	}
+	walk(ph)
+	return out
 }
